@@ -55,7 +55,7 @@ theorem facts_mutEv {h : Heap} (hinv : Inv h) (i : Nat) (m : Mut)
     obtain ⟨a, _, c, _, _, _⟩ := applyEff_spec _ _ _ hae
     by_cases hw : m.eff.isWrite = true
     · -- a value write: bindings untouched
-      have ⟨wb, wk⟩ : bindings n' = bindings (h.node i) ∧ n'.kids = (h.node i).kids := by
+      have ⟨wb, wk⟩ : payload n' = payload (h.node i) ∧ n'.kids = (h.node i).kids := by
         cases hme : m.eff with
         | write k => rw [hme] at hae; exact write_bindings _ _ _ hae
         | addLeaf _ _ => rw [hme] at hw; simp [Eff.isWrite] at hw
@@ -87,8 +87,27 @@ theorem facts_mutEv {h : Heap} (hinv : Inv h) (i : Nat) (m : Mut)
       simp only [hw', Bool.false_eq_true, if_false]
       exact facts_upd_node hinv i n' a c (.inr hnf) L
 
-/-- every event of the lock machine (memmap_ apart, which rebinds every leaf) -/
-theorem facts_stepLive (s : State) (hinv : Inv s.heap) (e : Ev) (hok : Props.C05.EvOk e) (hnm : notMemmap e = true)
+theorem memmapFlagsF_struct : ∀ n h i, SameStruct h (memmapFlagsF n h i) := by
+  intro n
+  induction n with
+  | zero => intro h i; exact SameStruct.refl h
+  | succ n ih =>
+    intro h i
+    simp only [memmapFlagsF]
+    refine SameStruct.trans ?_ (foldl_sameStruct _ (fun acc j => ih acc j) _ _)
+    split
+    · exact SameStruct.refl h
+    · apply sameStruct_upd; intro x; exact ⟨rfl, rfl⟩
+
+/-- the lock bookkeeping of `memmap_` (flags, then `_propagate_lock`) touches no entry and no attribute -/
+theorem memmapEv_struct (h : Heap) (i : Nat) : SameStruct h (memmapEv h i) :=
+  (memmapFlagsF_struct _ h i).trans (propLockF_struct _ _ _ _)
+
+theorem memmapEv_le (h : Heap) (i : Nat) : Le h (memmapEv h i) :=
+  (memmapFlagsF_le _ h i).trans (propLockF_le _ _ _ _)
+
+/-- every event of the lock machine (for `memmap_`: its lock bookkeeping; the rebinding of the leaves is `CEv.memmap`) -/
+theorem facts_stepLive (s : State) (hinv : Inv s.heap) (e : Ev) (hok : Props.C05.EvOk e)
     (ht : ∀ i, e.target = some i → live s.heap i = true ∧ i < s.heap.size) :
     StepFacts s.heap (stepLive s e).1.heap (erasedBy s e) (mutated s.heap e) := by
   cases e with
@@ -112,7 +131,7 @@ theorem facts_stepLive (s : State) (hinv : Inv s.heap) (e : Ev) (hok : Props.C05
       | false => exact facts_alloc hinv _ _ _
     · exact StepFacts.refl _ _ _
   | viaShare i => exact facts_of_le (shareEv_le _ i) (shareEv_struct _ i) _ _
-  | viaMemmap i => simp [notMemmap] at hnm
+  | viaMemmap i => exact facts_of_le (memmapEv_le _ i) (memmapEv_struct _ i) _ _
   | gcDrop i =>
     have g := ht i rfl
     simp only [stepLive]
